@@ -86,5 +86,67 @@ def run(ctx, F):
                     ctx.fail("F7-alt-shadowing", f"{key0}|alternative {i}: {A.show(a)[:50]}",
                              f"in {f['path']} alternative {i} (`{A.show(a)[:60]}`, starting with {firsts!r}) can never be chosen: an earlier alternative accepts that byte and cannot fail on it; input using this form is misread")
     ctx.floor("alt combinators examined", n_alt, 90)
+    first_position_rule(ctx, tree)
     ctx.explanation = ("Sibling tables: literal written per Unit variant (Display) vs the unit parser's literal->variant table; FIRST byte sets of nom combinators (tag, char, one_of, is_a, is_not, value, map*, opt, many*, "
                        "preceded/pair/terminated/delimited, alt, local parser functions) and shadowing of alternatives in all alt(..) of the parser modules.")
+
+
+def alt_members(tree, node, module, depth=0):
+    """names of the parsers an alt(..) (or a local helper that is one) chooses between"""
+    node = A.strip(node)
+    if not isinstance(node, dict) or depth > 3:
+        return None
+    if node.get("e") == "mcall" and node["m"] == "parse":
+        return alt_members(tree, node["recv"], module, depth)
+    if node.get("e") == "call" and node["f"].get("e") == "path":
+        name = node["f"]["p"].rsplit("::", 1)[-1]
+        if name == "alt" and node["args"]:
+            t = A.strip(node["args"][0])
+            xs = t["xs"] if t.get("e") == "tuple" else node["args"]
+            out = []
+            for x in xs:
+                x = A.strip(x)
+                while x.get("e") == "call" and x["f"].get("e") == "path" and x["f"]["p"].rsplit("::", 1)[-1] in ("map", "map_res", "value", "recognize", "into") and x["args"]:
+                    x = A.strip(x["args"][0] if x["f"]["p"].rsplit("::", 1)[-1] != "value" else x["args"][1])
+                out.append(x["p"].rsplit("::", 1)[-1] if x.get("e") == "path" else A.show(x)[:30])
+            return out
+        if len(node["args"]) == 1 and A.show(node["args"][0]).strip() == "input":
+            return alt_members(tree, node["f"], module, depth)
+    if node.get("e") == "path":
+        cands = [f for f in tree.fn_list if f["path"] == f"{module}::{node['p'].rsplit('::', 1)[-1]}"]
+        if len(cands) == 1 and len(cands[0]["body"]["stmts"]) == 1:
+            return alt_members(tree, cands[0]["body"]["stmts"][0].get("x"), module, depth + 1)
+    return None
+
+
+def first_position_rule(ctx, tree):
+    """Identifier readers: the first character of a name is escaped differently (a leading digit or
+    hyphen keeps its escape), so a reader that repeats `normalized_escaped_char` for the rest of a
+    name must start with `normalized_first_escaped_char`, never with the non-first normaliser."""
+    n = 0
+    for f in tree.fn_list:
+        if not (f["path"].startswith("parser::strings::") or f["path"].startswith("parser::css::strings::")):
+            continue
+        module = f["path"].rsplit("::", 1)[0]
+        folds = [x for x in A.walk(f["body"]) if x.get("e") == "call" and x["f"].get("e") == "path" and x["f"]["p"].rsplit("::", 1)[-1] in ("fold_many0", "many0") and x["args"]]
+        for fold in folds:
+            rest = alt_members(tree, fold["args"][0], module)
+            if not rest or "normalized_escaped_char" not in rest:
+                continue
+            first = None
+            for st in f["body"]["stmts"]:
+                if st.get("s") == "let" and st.get("init") is not None:
+                    init = A.strip(st["init"])
+                    if init.get("e") == "try":
+                        first = alt_members(tree, init["x"], module)
+                        if first:
+                            break
+            n += 1
+            key = f"{f['path']}|first part of a name"
+            if first is None:
+                ctx.fail("F9-first-position", key, f"cannot find the parser of the first part of the name in {f['path']}")
+            elif "normalized_first_escaped_char" in first and "normalized_escaped_char" not in first:
+                ctx.ok("F9-first-position", key, {"first": first, "rest": rest})
+            else:
+                ctx.fail("F9-first-position", key, f"{f['path']} reads the first part of a name with {first} and the rest with {rest}: the first position must use normalized_first_escaped_char (an escaped leading digit or hyphen otherwise loses its escape and the name changes)")
+    ctx.floor("name readers with a first/rest split", n, 2)
